@@ -53,7 +53,8 @@ def same(a, b):
         return False
     if a[0] == "err":
         return a == b
-    if isinstance(a[1], dict) and a[1] and isinstance(next(iter(a[1].values())), tuple) and next(iter(a[1].values()))[0] in ("dataset", "scalar", "other"):
+    if isinstance(a[1], dict) and a[1] and all(isinstance(v, tuple) and v and v[0] in ("dataset", "other") or
+                                                (isinstance(v, tuple) and len(v) == 3 and v[0] == "scalar") for v in a[1].values()):
         return harness.results_equal(a[1], b[1])
     return a[1] == b[1]
 
@@ -87,6 +88,35 @@ def graphs_item(item, rec):
                 rec.violation("C12:generated:%s:%s" % (what, kind),
                               "script %r in order %s: %s %s (identity order fine)" % (render(graph, mask, order), order, what, str(detail)[:200]),
                               {"kind": "graph", "graph": graph, "k": k, "order": order})
+
+
+def clause_item(item, rec):
+    """statements whose clauses refer to results (scalars) of other statements, in every permutation"""
+    graphs = item
+    V = harness.boot()
+    structs, dps = G.structures(1), G.frames(1)
+    for graph in graphs:
+        n = len(G.clause_statements(graph))
+        mask = tuple(i % 2 == 1 for i in range(n))
+        ident = tuple(range(n))
+        base = outcome(V, G.clause_render(graph, mask, ident), structs, dps)
+        if base[0][0] != "ok" or base[1][0] != "ok":
+            rec.tool_error("clause-reference script invalid: %r -> %s" % (G.clause_render(graph, mask, ident), str(base)[:300]))
+            continue
+        for order in itertools.permutations(range(n)):
+            if order == ident:
+                continue
+            got = outcome(V, G.clause_render(graph, mask, order), structs, dps)
+            ok_s, ok_r = same(base[0], got[0]), same(base[1], got[1])
+            rec.case(("clause-ref", n, sum(1 for a, b in zip(order, ident) if a != b), ok_s, ok_r), "same" if ok_s and ok_r else "differs",
+                     sample={"script": G.clause_render(graph, mask, order)} if order == tuple(reversed(ident)) else None)
+            if not ok_s or not ok_r:
+                what = "structures" if not ok_s else "results"
+                detail = got[0] if not ok_s else got[1]
+                kind = "error:%s:%s" % (detail[2], detail[3]) if detail[0] == "err" else "differs"
+                rec.violation("C12:clause-reference:%s:%s" % (what, kind),
+                              "script %r: %s %s (definition-first order fine)" % (G.clause_render(graph, mask, order), what, str(detail)[:200]),
+                              {"kind": "clause", "graph": graph, "order": order})
 
 
 DEFS = {
@@ -251,6 +281,8 @@ class Check:
             for ch in harness.chunks(gs, max(1, len(gs) // 48 + 1)):
                 items.append((ch, k, run_all))
         harness.pmap(graphs_item, items, rec)
+        cgs = list(G.clause_graphs(2, 2)) if tier == "quick" else list(G.clause_graphs(2, 2)) + list(G.clause_graphs(3, 1)) + list(G.clause_graphs(1, 3))
+        harness.pmap(clause_item, list(harness.chunks(harness.seeded_order(cgs, seed), 3)), rec)
         harness.pmap(defs_item, [0], rec)
         harness.pmap(negative_item, [0], rec)
         rs = corpus.load(fn="run", outcome="ok")
@@ -263,7 +295,10 @@ class Check:
 
     def replay(self, data):
         rec = harness.Recorder()
-        if data["kind"] == "graph":
+        if data["kind"] == "clause":
+            g = data["graph"]
+            clause_item([(tuple(tuple(x) for x in g[0]), tuple((b, tuple(c)) for b, c in g[1]))], rec)
+        elif data["kind"] == "graph":
             graphs_item(([tuple(tuple(o) for o in data["graph"])], data["k"], True), rec)
         elif data["kind"] == "defs":
             defs_item(0, rec)
